@@ -1363,11 +1363,11 @@ func (x *X) binop(s *State, i *ssa.BinOp) Val {
 	case token.GEQ:
 		return Sc{T: sApp(">=", ls.T, rs.T), Sort: "Bool"}
 	case token.ADD:
-		return Sc{T: wrapInt(sApp("+", ls.T, rs.T), i.Type()), Sort: "Int"}
+		return x.machineArith(s, sApp("+", ls.T, rs.T), i.Type())
 	case token.SUB:
-		return Sc{T: wrapInt(sApp("-", ls.T, rs.T), i.Type()), Sort: "Int"}
+		return x.machineArith(s, sApp("-", ls.T, rs.T), i.Type())
 	case token.MUL:
-		return Sc{T: wrapInt(sApp("*", ls.T, rs.T), i.Type()), Sort: "Int"}
+		return x.machineArith(s, sApp("*", ls.T, rs.T), i.Type())
 	case token.QUO:
 		x.emit(s, "nopanic", "nopanic.divzero@"+x.site(s), nil, sNot(sEq(rs.T, "0")), "integer division by zero")
 		return Sc{T: wrapInt(sApp("tdiv", ls.T, rs.T), i.Type()), Sort: "Int"}
@@ -1765,4 +1765,16 @@ func splitTop(s string) []string {
 		out = append(out, s[st:])
 	}
 	return out
+}
+
+// machineArith: the result of a machine-integer operation. Wrap-around is treated like a panic: staying inside the
+// type's range is an obligation ("nopanic.overflow"), after which the mathematical value is used.
+func (x *X) machineArith(s *State, e string, t types.Type) Val {
+	if _, _, ok := intRange(t); !ok {
+		return Sc{T: e, Sort: "Int"}
+	}
+	f := rangeFact(e, t)
+	x.emit(s, "nopanic", "nopanic.overflow@"+x.site(s), nil, f, "machine integer overflow / wrap-around")
+	s.assume(f)
+	return Sc{T: e, Sort: "Int"}
 }
